@@ -310,7 +310,6 @@ func body(p program) func() string {
 			})
 		}
 		vrt.Join()
-		final := w.finalState()
 		// after quiescence: one probe Send per event type. Every registry call has returned before it
 		// starts, so it must deliver exactly to the pipelines some real-time-consistent order leaves behind.
 		// (run without choice points: the probes are sequential, their own fan-out is C01/C03's subject)
@@ -323,6 +322,9 @@ func body(p program) func() string {
 				calls = append(calls, c)
 			}
 		})
+		// the private state is compared after the probes, here and in the sequential replays: whatever a Send
+		// builds lazily (a cache, an index) has then been built in both worlds
+		final := w.finalState()
 		for _, c := range calls {
 			if c.Op.Kind == "send" {
 				c.Delivered = deliveriesOf(w.log, c)
@@ -551,6 +553,10 @@ func checkQuiescent(p program, calls []*call, final string) string {
 				if c.Err != reg[k].Err || c.Ret != reg[k].Ret {
 					ok = false
 				}
+			}
+			for _, k := range []int{0, 1} {
+				pc := &call{Op: alphabet[k]}
+				w.apply(pc.Op, pc)
 			}
 			fs := w.finalState()
 			if ok && fs == final {
